@@ -231,8 +231,23 @@ def adler_kernels(ck, P, cfg):
         detail = ""
         for c in fn.live_calls(r"slice::<impl \[T\]>::chunks(_exact)?$|core::slice::chunks(_exact)?$|::chunks(_exact)?$|cmp::Ord::min$|::min$"):
             args = fn.call_args(c)
+            nmax_item = P.item(Z + "adler32::NMAX") or {}
             for a in args:
                 if not mir.mentions_const(a, defname="NMAX"):
+                    # the run length as a named constant of its own (`const VECTORS_PER_STEP: usize = NMAX as usize / 32`): decided
+                    # on its value
+                    v_ = fn.const_of(a)
+                    if isinstance(v_, int) and v_ > 1 and isinstance(nmax_item.get("val"), int) and c.callee.split("::")[-1].startswith("chunks"):
+                        esz_ = 1
+                        for g in c.gargs:
+                            if g in ELEM_SIZE:
+                                esz_ = ELEM_SIZE[g]
+                        if esz_ > 1 or v_ * esz_ > 64:
+                            if v_ * esz_ <= nmax_item["val"]:
+                                okk = True
+                                detail = "%s(%d) over %d-byte elements" % (c.callee.split("::")[-1], v_, esz_)
+                            else:
+                                detail = "%s(%d) over %d-byte elements exceeds NMAX bytes per run" % (c.callee.split("::")[-1], v_, esz_)
                     continue
                 e = mir.strip_casts(a)
                 esz = 1
